@@ -68,7 +68,22 @@ func (r *Region) addElems(u *Unit, base, off, n *Term, elem types.Type) {
 	defer func() { r.curRoot = 0 }()
 	for _, lf := range u.leaves(elem, nil) {
 		if lf.kind == "array" {
-			unsupported("region over nested arrays")
+			// an array of arrays of scalars (e.g. [6][64]int8): every cell Idx(Idx(base, i), j) of the selected rows
+			inner := lf.t.Underlying().(*types.Array)
+			ikind, _, ok := scalarKind(inner.Elem())
+			if !ok || len(lf.path) != 0 {
+				unsupported("region over nested arrays of non-scalars")
+			}
+			c := u.C
+			r.add(ikind, func(x *Term) *Term {
+				row := c.IdxBase(x)
+				cond := c.And(c.IsIdx(x), c.IsIdx(row), c.Eq(c.IdxBase(row), base))
+				if cond.IsFalse() || n == nil {
+					return cond
+				}
+				return c.And(cond, c.ULt(c.Sub(c.IdxIndex(row), off), n))
+			})
+			continue
 		}
 		path := lf.path
 		r.add(lf.kind, func(x *Term) *Term {
@@ -515,12 +530,28 @@ func (fr *frame) applyContract(st *State, bc *BoundContract, args []Val, pos tok
 	env := u.newSpecEnv(bc, st, st, args, nil)
 	site := u.srcText(fr.fn, pos, "call")
 	// preconditions
+	lax := u.specMode == 0 && bc.Partial && fr.recoverFrame() != nil // violated precondition: panic OR any result
+	preAll := c.True
 	for _, rq := range bc.Requires {
 		g := env.evalBool(rq.Expr)
-		if u.specMode == 0 && !fr.recovers() {
+		preAll = c.And(preAll, g)
+		if u.specMode == 0 && (!fr.recovers() || !(bc.MayPanic || bc.Partial)) {
+			// (inside a recovering function only a callee that is declared to panic on a violated precondition is exempt)
 			u.oblige(st, "requires@call", fmt.Sprintf("%s requires %s", site, rq.Text()), pos, g)
 		}
-		u.assume(st, g)
+		if u.specMode == 0 && (bc.MayPanic || bc.Partial) {
+			if rf := fr.recoverFrame(); rf != nil {
+				// a callee marked "panics" / "partial" whose precondition fails panics: that path is caught by the recovering function
+				ps := st.clone()
+				ps.pc = c.And(st.pc, c.Not(g))
+				if !ps.pc.IsFalse() {
+					rf.panics = append(rf.panics, ps)
+				}
+			}
+		}
+		if !lax {
+			u.assume(st, g)
+		}
 	}
 	// modifies ⊆ caller's frames
 	reg := env.region(bc.Modifies, bc.ModifiesAll)
@@ -619,7 +650,11 @@ func (fr *frame) applyContract(st *State, bc *BoundContract, args []Val, pos tok
 	}
 	post := u.newSpecEnv(bc, st, pre, args, results)
 	for _, en := range bc.Ensures {
-		u.assume(st, post.evalBool(en.Expr))
+		g := post.evalBool(en.Expr)
+		if lax {
+			g = c.Implies(preAll, g) // with a violated precondition the call may also return: nothing is known then
+		}
+		u.assume(st, g)
 	}
 	return results
 }
